@@ -1,0 +1,206 @@
+//go:build verif
+
+package verifhook
+
+import (
+	"errors"
+	"sort"
+
+	dtpb "github.com/google/fhir/go/proto/google/fhir/proto/r4/core/datatypes_go_proto"
+	"github.com/verily-src/fhirpath-go/internal/element/canonical"
+	"github.com/verily-src/fhirpath-go/internal/element/reference"
+	"github.com/verily-src/fhirpath-go/internal/fhir"
+	"github.com/verily-src/fhirpath-go/internal/protofields"
+	"github.com/verily-src/fhirpath-go/internal/resource"
+)
+
+// LitInfo is the observable content of a reference.LiteralInfo.
+type LitInfo struct {
+	Kind      string // "frag", "rest", "nonrest"
+	Type      string
+	HasType   bool
+	Frag      string
+	IDType    string
+	ID        string
+	Ver       string
+	Base      string
+	NonREST   string
+	URIString string
+}
+
+func litInfo(l *reference.LiteralInfo) *LitInfo {
+	out := &LitInfo{URIString: l.URIString(), Base: l.ServiceBaseURL()}
+	if t, ok := l.Type(); ok {
+		out.Type, out.HasType = t.String(), true
+	}
+	if f, ok := l.FragmentID(); ok {
+		out.Kind, out.Frag = "frag", f
+	} else if id, ok := l.Identity(); ok {
+		out.Kind = "rest"
+		out.IDType, out.ID = id.Type().String(), id.ID()
+		out.Ver, _ = id.VersionID()
+	} else if u, ok := l.NonRESTURI(); ok {
+		out.Kind, out.NonREST = "nonrest", u
+	}
+	return out
+}
+
+// RefErrCode maps the sentinel errors of the reference package to small numbers.
+func RefErrCode(err error) int {
+	switch {
+	case err == nil:
+		return 0
+	case errors.Is(err, reference.ErrTypeInvalid):
+		return 1
+	case errors.Is(err, reference.ErrExplicitFragmentInvalid):
+		return 2
+	case errors.Is(err, reference.ErrWeakInvalid):
+		return 3
+	case errors.Is(err, reference.ErrTypeInconsistent):
+		return 4
+	case errors.Is(err, reference.ErrNotLiteral):
+		return 5
+	case errors.Is(err, reference.ErrStrongInvalid):
+		return 6
+	}
+	return 9
+}
+
+// LiteralFromURI calls reference.LiteralInfoFromURI.
+func LiteralFromURI(u string) (*LitInfo, error) {
+	l, err := reference.LiteralInfoFromURI(u)
+	if err != nil {
+		return nil, err
+	}
+	return litInfo(l), nil
+}
+
+// LiteralOf calls reference.LiteralInfoOf.
+func LiteralOf(ref *dtpb.Reference) (*LitInfo, error) {
+	l, err := reference.LiteralInfoOf(ref)
+	if err != nil {
+		return nil, err
+	}
+	return litInfo(l), nil
+}
+
+// LiteralWithBase parses u and replaces the service base URL.
+func LiteralWithBase(u, base string) (*LitInfo, error) {
+	l, err := reference.LiteralInfoFromURI(u)
+	if err != nil {
+		return nil, err
+	}
+	l2, err := l.WithServiceBaseURL(base)
+	if err != nil {
+		return nil, err
+	}
+	return litInfo(l2), nil
+}
+
+// Ident is the observable content of a resource.Identity.
+type Ident struct {
+	Type, ID, Ver                                string
+	String, Relative, Versioned, PreferVersioned string
+	HasVersioned                                 bool
+}
+
+func ident(i *resource.Identity) *Ident {
+	out := &Ident{Type: i.Type().String(), ID: i.ID(), String: i.String(), Relative: i.RelativeURIString(), PreferVersioned: i.PreferRelativeVersionedURIString()}
+	out.Ver, _ = i.VersionID()
+	out.Versioned, out.HasVersioned = i.RelativeVersionedURIString()
+	return out
+}
+
+func identOr(i *resource.Identity, err error) (*Ident, error) {
+	if err != nil {
+		return nil, err
+	}
+	return ident(i), nil
+}
+
+func NewIdentity(t, id, ver string) (*Ident, error) { return identOr(resource.NewIdentity(t, id, ver)) }
+func NewIdentityFromURL(u string) (*Ident, error)   { return identOr(resource.NewIdentityFromURL(u)) }
+func NewIdentityFromHistoryURL(u string) (*Ident, error) {
+	return identOr(resource.NewIdentityFromHistoryURL(u))
+}
+func IdentityFromURL(u string) (*Ident, error) { return identOr(reference.IdentityFromURL(u)) }
+func IdentityFromAbsoluteURL(u string) (*Ident, error) {
+	return identOr(reference.IdentityFromAbsoluteURL(u))
+}
+func IdentityFromRelativeURI(u string) (*Ident, error) {
+	return identOr(reference.IdentityFromRelativeURI(u))
+}
+func IdentityOfRef(r *dtpb.Reference) (*Ident, error) { return identOr(reference.IdentityOf(r)) }
+
+// IdentityOfResource calls resource.IdentityOf.
+func IdentityOfResource(r any) (*Ident, bool) {
+	res, ok := r.(fhir.Resource)
+	if !ok {
+		return nil, false
+	}
+	i, ok := resource.IdentityOf(res)
+	if !ok {
+		return nil, false
+	}
+	return ident(i), true
+}
+
+// Typed, TypedFromIdentity and Weak build references.
+func Typed(t, id string) (*dtpb.Reference, error) {
+	return reference.Typed(resource.Type(t), id)
+}
+func TypedFromIdentity(t, id, ver string) (*dtpb.Reference, error) {
+	i, err := resource.NewIdentity(t, id, ver)
+	if err != nil {
+		return nil, err
+	}
+	return reference.TypedFromIdentity(i), nil
+}
+func Weak(t, uri string) *dtpb.Reference { return reference.Weak(resource.Type(t), uri) }
+
+// RefIs calls reference.Is.
+func RefIs(a, b *dtpb.Reference) bool { return reference.Is(a, b) }
+
+// CanonicalParts calls canonical.IdentityFromReference and String.
+func CanonicalParts(c string) (url, version, fragment, str string, err error) {
+	ci, err := canonical.IdentityFromReference(&dtpb.Canonical{Value: c})
+	if err != nil {
+		return "", "", "", "", err
+	}
+	return ci.Url, ci.Version, ci.Fragment, ci.String(), nil
+}
+
+// CanonicalNew calls canonical.New.
+func CanonicalNew(url, version, fragment string) string {
+	var opts []canonical.Option
+	if version != "" {
+		opts = append(opts, canonical.WithVersion(version))
+	}
+	if fragment != "" {
+		opts = append(opts, canonical.WithFragment(fragment))
+	}
+	return canonical.New(url, opts...).GetValue()
+}
+
+// CanonicalType calls CanonicalIdentity.Type.
+func CanonicalType(url string) (string, bool) {
+	ci, err := resource.NewCanonicalIdentity(url, "", "")
+	if err != nil {
+		return "", false
+	}
+	t, ok := ci.Type()
+	return t.String(), ok
+}
+
+func IsResourceType(s string) bool { return resource.IsType(s) }
+func IsID(s string) bool           { return fhir.IsID(s) }
+
+// ResourceTypeNames lists the keys of the resource registry.
+func ResourceTypeNames() []string {
+	var out []string
+	for k := range protofields.Resources {
+		out = append(out, k)
+	}
+	sort.Strings(out)
+	return out
+}
